@@ -452,7 +452,10 @@ def uf_family(run, r, n):
         if extra:
             run.violation('property', '%s introduces hypotheses that no premise has: %s' % (rule, [sstr(h) for h in extra]),
                           dict(rule=rule, args=[sstr(a) for a in args], prevs=[sstr(p) for p in prevs], result=sstr(th)), key='C18:%s:hyps' % rule)
-        if rule == 'verit_let':
+        if rule == 'verit_subproof':
+            # premises are sequents; their content is hyps --> prop
+            res = z3oracle.entails([Implies(*(list(p.hyps) + [p.prop])) for p in prevs] + list(th.hyps), th.prop)
+        elif rule == 'verit_let':
             # the last premise is valid by congruence; the others are ordinary assumptions (with their hypotheses)
             res = z3oracle.entails([p.prop for p in prevs[:-1]] + list(th.hyps), th.prop)
         elif rule in ('verit_bind', 'verit_sko_ex', 'verit_sko_forall'):
@@ -648,6 +651,17 @@ def uf_family(run, r, n):
                     if z3oracle.entails([Eq(x_, sk)], Eq(phi_of(x_), psi)) is not True:
                         continue
                     offer(rule, [Eq(Q(x_, phi_of(x_)), psi), {x_.name: sk}], [prem], 'guessed')
+
+    # ---- subproof: local assumptions p1 .. pn (each p |- p) and a last step; only the p's may be discharged
+    for _ in range(max(3, n // 6)):
+        k = r.choice([1, 2])
+        loc = r.sample(ps, k)
+        q_ = r.choice([Or(*loc), P1(xs[0]), And(*loc) if k > 1 else loc[0], r.choice(ps)])
+        other = r.choice([HYP, P1(xs[1]), r.choice(ps)])
+        for last_hyps in (tuple(loc), tuple(loc) + (other,), (other,), ()):
+            prevs_ = [Thm(p_, p_) for p_ in loc] + [Thm(q_, *last_hyps)]
+            offer('verit_subproof', [Not(p_) for p_ in loc] + [q_], prevs_, 'guessed')
+            offer('verit_subproof', [Not(p_) for p_ in loc[:-1]] + [q_], prevs_[1:] if k > 1 else prevs_, 'guessed')
 
     # ---- let: (let x = t in body) <--> rhs from premises t = s and  x = s |- body <--> rhs
     from kernel.term import Let
